@@ -593,6 +593,25 @@ func (e *Env) evalCall(n *ECall) (cval, error) {
 		}
 		c.R.Heap(HAlloc, ArraySort("Ref", "Bool"))
 		return cval{t: And(Not(Eq(r, Nil)), Not(Select(c.getHeap(e.old, HAlloc), c.rroot(r))), Select(c.getHeap(e.st, HAlloc), c.rroot(r))), typ: boolT}, nil
+	case "rtypeof":
+		// the reflect.Type of a Go type, as returned by reflect.TypeOf
+		if err := need(1); err != nil {
+			return cval{}, err
+		}
+		ts, ok := n.Args[0].(*EStr)
+		if !ok {
+			return cval{}, fmt.Errorf("rtypeof needs a type string")
+		}
+		t, err := c.W.ParseType(e.pkgPath, ts.V)
+		if err != nil {
+			return cval{}, err
+		}
+		c.R.UFun("reflTypeOf", "(declare-fun reflTypeOf (Int) Iface)\n(declare-fun reflTagOf (Iface) Int)\n(assert (forall ((t Int)) (! (and (not ((_ is inil) (reflTypeOf t))) (= (reflTagOf (reflTypeOf t)) t)) :pattern ((reflTypeOf t)))))")
+		rt, _ := c.W.ParseType("reflect", "Type")
+		if rt == nil {
+			rt = types.NewInterfaceType(nil, nil)
+		}
+		return cval{t: app("Iface", "reflTypeOf", IntLit(int64(c.R.TypeID(t)))), typ: rt}, nil
 	case "ptrof":
 		// the pointer boxed in an interface value (models are pointers to structs)
 		if err := need(1); err != nil {
